@@ -262,6 +262,8 @@ def inline_locals(fn: ast.FunctionDef, keep: set[str] | None = None) -> ast.Func
                     rest = block[i + 1:]
                     if not uses or not all(any(_contains(s, u) for s in rest) for u in uses):
                         continue
+                    if len(uses) > 1 and any(isinstance(n, ast.IfExp) for n in ast.walk(val)):
+                        continue  # a conditional value used several times stays a local (lowered to an if statement later)
                     # uses inside nested function definitions are left alone (late binding)
                     if any(isinstance(d, (ast.FunctionDef, ast.Lambda)) and d is not fn and any(_contains(d, u) for u in uses) for d in ast.walk(fn)):
                         continue
@@ -447,6 +449,74 @@ def _single_trailing_return(body: list[ast.stmt]) -> tuple[list[ast.stmt], ast.e
     return None
 
 
+def _single_exit(body: list[ast.stmt], ret: str) -> list[ast.stmt] | None:
+    """Return-elimination for structured code: returns may sit in (nested) if branches, not in loops / try / with.
+    The statements after an ``if`` that returns on some branch are moved into the branches that fall through."""
+
+    class Fail(Exception):
+        pass
+
+    def has_ret(st: ast.stmt) -> bool:
+        return any(isinstance(n, ast.Return) for n in ast.walk(st) if not isinstance(n, (ast.FunctionDef, ast.Lambda)) or n is st)
+
+    def rec(stmts: list[ast.stmt], depth: int = 0) -> tuple[list[ast.stmt], bool]:
+        if depth > 12:
+            raise Fail()
+        out: list[ast.stmt] = []
+        for i, st in enumerate(stmts):
+            if isinstance(st, ast.Return):
+                out.append(ast.copy_location(ast.Assign(targets=[ast.Name(id=ret, ctx=ast.Store())], value=st.value if st.value is not None else ast.Constant(value=None)), st))
+                return out, True
+            if isinstance(st, (ast.FunctionDef, ast.AsyncFunctionDef, ast.ClassDef)) or not has_ret(st):
+                out.append(st)
+                continue
+            if not isinstance(st, ast.If):
+                raise Fail()
+            rest = stmts[i + 1:]
+            tb, talways = rec(copy.deepcopy(st.body), depth + 1)
+            if not talways:
+                tb, talways = rec(copy.deepcopy(st.body) + copy.deepcopy(rest), depth + 1)
+            eb, ealways = rec(copy.deepcopy(st.orelse), depth + 1) if st.orelse else ([], False)
+            if not ealways:
+                eb, ealways = rec(copy.deepcopy(st.orelse) + copy.deepcopy(rest), depth + 1)
+            out.append(ast.copy_location(ast.If(test=st.test, body=tb or [ast.Pass()], orelse=eb), st))
+            return out, talways and ealways
+        return out, False
+
+    try:
+        res, always = rec(body)
+    except Fail:
+        return None
+    if not always:
+        # implicit `return None` on the paths that fall off the end: make it explicit where it is missing
+        def close(stmts: list[ast.stmt]) -> None:
+            if stmts and isinstance(stmts[-1], ast.If) and any(isinstance(n, ast.Name) and n.id == ret for n in ast.walk(stmts[-1])):
+                close(stmts[-1].body)
+                if stmts[-1].orelse:
+                    close(stmts[-1].orelse)
+                else:
+                    stmts[-1].orelse = [ast.Assign(targets=[ast.Name(id=ret, ctx=ast.Store())], value=ast.Constant(value=None))]
+            elif not (stmts and isinstance(stmts[-1], ast.Assign) and isinstance(stmts[-1].targets[0], ast.Name) and stmts[-1].targets[0].id == ret):
+                stmts.append(ast.Assign(targets=[ast.Name(id=ret, ctx=ast.Store())], value=ast.Constant(value=None)))
+        close(res)
+    for st in res:
+        ast.fix_missing_locations(st)
+    return res
+
+
+def _leading_call(e: ast.expr) -> ast.Call | None:
+    """The call that is evaluated first (unconditionally) when ``e`` is evaluated, if e starts with one."""
+    if isinstance(e, ast.Call):
+        return e
+    if isinstance(e, ast.Compare):
+        return _leading_call(e.left)
+    if isinstance(e, ast.UnaryOp):
+        return _leading_call(e.operand)
+    if isinstance(e, ast.BoolOp):
+        return _leading_call(e.values[0])
+    return None
+
+
 class HelperInliner:
     def __init__(self, module_tree: ast.Module, modname: str, baseline: dict[str, set[str]], other_modules: dict[str, ast.Module] | None = None) -> None:
         self.tree = module_tree
@@ -546,7 +616,12 @@ class HelperInliner:
         body = copy.deepcopy(body)
         str_ret = _single_trailing_return(body)
         if str_ret is None:
-            return None
+            # several returns: single-exit form (every `return E` becomes `__ret = E`, the code after an if is folded into its branches)
+            se = _single_exit(body, "__ret")
+            if se is None:
+                return None
+            str_ret = (se, ast.Name(id="__ret", ctx=ast.Load()))
+            body = se
         stmts, ret = str_ret
         self.counter += 1
         sfx = f"__h{self.counter}"
@@ -624,6 +699,22 @@ class HelperInliner:
                             done = True
                         else:
                             self.failed.add(q)
+                if isinstance(st, ast.If) and not done:
+                    lc = _leading_call(st.test)
+                    r0 = self.resolve(lc, fn, cls, qual) if lc is not None else None
+                    if r0 is not None:
+                        cb = [s for s in r0[0].body if not (isinstance(s, ast.Expr) and isinstance(s.value, ast.Constant))]
+                        single_expr = len(cb) == 1 and isinstance(cb[0], ast.Return)
+                        if not single_expr and not any(isinstance(n, (ast.Yield, ast.YieldFrom)) for n in ast.walk(r0[0])):
+                            # a helper with statements in the test of an if: evaluate it into a temporary first
+                            self.counter += 1
+                            tmp = f"__c{self.counter}"
+                            pre_ = ast.copy_location(ast.Assign(targets=[ast.Name(id=tmp, ctx=ast.Store())], value=lc), st)
+                            st.test = _replace_node(st.test, lc, ast.copy_location(ast.Name(id=tmp, ctx=ast.Load()), lc))
+                            ast.fix_missing_locations(pre_)
+                            block[i:i + 1] = [pre_, st]
+                            self._hoisted = getattr(self, "_hoisted", set()) | {id(pre_)}
+                            continue
                 if not done and isinstance(st, ast.For) and isinstance(st.iter, ast.Call) and not st.orelse:
                     g = self._inline_generator(st, fn, cls, qual)
                     if g is not None:
